@@ -320,6 +320,7 @@ lazy_static! {
             ("length".to_owned(), Function::StringLength),
             ("upper".to_owned(), Function::StringToUpper),
             ("lower".to_owned(), Function::StringToLower),
+            ("regex_matches".to_owned(), Function::RegexMatches),
             ("regexp_matches".to_owned(), Function::RegexMatches),
             ("create_array".to_owned(), Function::CreateArray),
             ("array_unique".to_owned(), Function::ArrayUnique),
